@@ -581,14 +581,14 @@ Proof.
     + destruct Hn as [Hpn Hrn].
       rewrite (write_unpack_packable _ n Hpn) in H. cbn [c_dev c_fl c_tags c_in app] in H.
       inversion H; subst.
-      eexists (TMulti _), [], [n]. cbn [optl app tx_packets map tx_tags c_tags wf_tx c_dev c_fl c_in].
-      rewrite set_flags_len, set_flags_mdev. cbn [fl_multi_mdev f_len f_mdev Z.add].
+      eexists (TMulti _), [], [n]. split; [reflexivity|].
+      cbn [optl app tx_packets map tx_tags c_tags wf_tx c_dev c_fl c_in].
+      rewrite set_flags_len, set_flags_mdev. cbn [fl_multi_mdev f_len f_mdev].
       rewrite (norm_foreign i n Eown).
       repeat split; try reflexivity; try (cbn; lia).
       * intros x Hx. exact Hx.
       * constructor; [|constructor]. rewrite <- (norm_foreign i n Eown).
         apply src_ok_in_ok; [assumption|]. split; assumption.
-      * intro Hc. discriminate.
       * intros x Hx. apply in_app_or in Hx. destruct Hx as [Hx|Hx]; [right|left; exact Hx].
         exists n. split; [left; reflexivity|exact Hx].
       * intros v x [Hv|[]] Hx. subst v. apply in_or_app. left. exact Hx.
@@ -604,7 +604,7 @@ Proof.
     assert (Hfuel : Z.to_nat NP <> O) by lia.
     specialize (H8 eq_refl Hfuel ltac:(discriminate)).
     destruct used as [|n' u]; [congruence|].
-    cbn [app] in H1. inversion H1; subst n'.
+    cbn [app] in H1. injection H1 as Hnn Hqq. subst n'.
     destruct (np_loop_flags _ _ _ _ _ _ _ _ _ _ EL Hpk eq_refl eq_refl) as [G1 [G2 G3]].
     { cbn [c_in]. rewrite len_nil. lia. }
     { intros _. constructor. }
@@ -613,39 +613,820 @@ Proof.
     { rewrite Forall_forall. intros v Hv. apply in_map_iff in Hv. destruct Hv as [p [Hp1 Hp2]]. subst v.
       apply src_ok_in_ok; [assumption|]. rewrite Forall_forall in Hall. apply Hall.
       apply H6 in Hp2. destruct Hp2 as [Hp2|Hp2]; [left; exact Hp2|right].
-      rewrite H3. apply in_or_app. left. exact Hp2. }
+      rewrite Hqq. apply in_or_app. left. exact Hp2. }
     assert (Hmulti : wf_tx reg i (TMulti o')).
     { cbn [wf_tx]. rewrite H2. split; [assumption|]. split; [rewrite <- H2; assumption|].
       split; [rewrite <- H2; lia|]. split; [assumption|]. rewrite <- H2. exact G3. }
     assert (Htags : forall x, In x (c_tags o') <-> exists v, In v kept /\ In x (p_tags v)).
-    { intro x. rewrite H3'. apply in_flat_map. }
+    { intro x. rewrite H3. apply in_flat_map. }
+    assert (Hmcase : exists tx u0 kept0,
+      Some (TMulti o') = Some tx /\ q = u0 ++ optl k ++ rest /\
+      map untag (tx_packets tx) = map (fun p => untag (norm i p)) kept0 /\
+      nonnop kept0 = nonnop (n :: u0) /\ incl kept0 (n :: u0) /\ wf_tx reg i tx /\
+      (forall x, In x (tx_tags tx) -> In x t \/ exists v, In v kept0 /\ In x (p_tags v)) /\
+      (forall v x, In v kept0 -> In x (p_tags v) -> In x (tx_tags tx)) /\
+      (match tx with TMulti c => c_in c = map (norm i) kept0 | TSingle _ => True end)).
+    { exists (TMulti o'), u, kept.
+      split; [reflexivity|]. split; [exact Hqq|].
+      split; [cbn [tx_packets]; rewrite H2, map_map; reflexivity|].
+      split; [exact H5|]. split; [exact H6|]. split; [exact Hmulti|].
+      split; [intros x Hx; right; apply Htags; exact Hx|].
+      split; [intros v0 x Hv Hx; apply Htags; exists v0; split; assumption|].
+      exact H2. }
     unfold unwrap.
-    destruct ((f_len (c_fl o') =? 1) && negb (f_mdev (c_fl o'))) eqn:EU.
-    + apply andb_prop in EU. destruct EU as [EU1 EU2].
-      destruct (c_in o') as [|v [|w r]] eqn:Ein.
-      * exists (TMulti o'), u, kept. rewrite Ein in H2.
-        repeat split; try assumption; try (rewrite <- H2, <- Ein; reflexivity).
-        -- cbn [tx_packets]. rewrite Ein, H2. rewrite map_map. reflexivity.
-        -- intros x Hx. right. apply Htags. exact Hx.
-        -- intros v x Hv Hx. apply Htags. exists v. split; assumption.
-        -- rewrite Ein. exact H2.
-      * destruct kept as [|p [|p2 kr]]; try discriminate. cbn [map] in H2. inversion H2; subst v.
-        exists (TSingle (norm i p)), u, [p]. cbn [tx_packets map tx_tags wf_tx].
-        repeat split; try assumption; try reflexivity.
-        -- destruct (f_mdev (c_fl o')); [discriminate|]. specialize (G3 eq_refl). rewrite Ein in G3.
-           inversion G3; assumption.
-        -- rewrite Ein in Hkept_ok. cbn [map] in Hkept_ok. inversion Hkept_ok as [|? ? Hk _]. apply Hk.
-        -- intros x Hx. right. exists p. split; [left; reflexivity|]. rewrite p_tags_norm in Hx. exact Hx.
-        -- intros v x [Hv|[]] Hx. subst v. rewrite p_tags_norm. exact Hx.
-      * exists (TMulti o'), u, kept.
-        repeat split; try assumption.
-        -- cbn [tx_packets]. rewrite Ein, H2. rewrite map_map. reflexivity.
-        -- intros x Hx. right. apply Htags. exact Hx.
-        -- intros v0 x Hv Hx. apply Htags. exists v0. split; assumption.
-        -- rewrite Ein. exact H2.
-    + exists (TMulti o'), u, kept.
-      repeat split; try assumption.
-      * cbn [tx_packets]. rewrite H2. rewrite map_map. reflexivity.
-      * intros x Hx. right. apply Htags. exact Hx.
-      * intros v0 x Hv Hx. apply Htags. exists v0. split; assumption.
+    destruct ((f_len (c_fl o') =? 1) && negb (f_mdev (c_fl o'))) eqn:EU; [|exact Hmcase].
+    apply andb_prop in EU. destruct EU as [EU1 EU2].
+    destruct (c_in o') as [|v [|w r]] eqn:Ein; [exact Hmcase| |exact Hmcase].
+    destruct kept as [|p [|p2 kr]]; try discriminate. cbn [map] in H2. injection H2 as H2. subst v.
+    exists (TSingle (norm i p)), u, [p]. cbn [tx_packets map tx_tags wf_tx].
+    repeat split; try assumption; try reflexivity.
+    -- destruct (f_mdev (c_fl o')); [discriminate|]. specialize (G3 eq_refl).
+       inversion G3; assumption.
+    -- cbn [map] in Hkept_ok. inversion Hkept_ok as [|? ? Hk _]. apply Hk.
+    -- intros x Hx. right. exists p. split; [left; reflexivity|]. rewrite p_tags_norm in Hx. exact Hx.
+    -- intros v x [Hv|[]] Hx. subst v. rewrite p_tags_norm. exact Hx.
+Qed.
+
+(* --- Session.next: pick, the abandoned group --- *)
+
+Fixpoint dropwhile {A} (f : A -> bool) (l : list A) : list A :=
+  match l with [] => [] | x :: r => if f x then dropwhile f r else l end.
+Fixpoint takewhile {A} (f : A -> bool) (l : list A) : list A :=
+  match l with [] => [] | x :: r => if f x then x :: takewhile f r else [] end.
+Lemma take_drop_while {A} (f : A -> bool) l : l = takewhile f l ++ dropwhile f l.
+Proof. induction l as [|x l IH]; [reflexivity|]. cbn. destruct (f x); [cbn; f_equal; exact IH|reflexivity]. Qed.
+
+Definition in_group (l : Z) (p : packet) : bool := f_group (p_fl p) =? l.
+
+Lemma skip_group_spec l : forall q n n1 q1,
+  skip_group l n q = (n1, q1) ->
+  (in_group l n1 = true /\ q1 = [] /\ dropwhile (in_group l) (n :: q) = []) \/
+  (in_group l n1 = false /\ dropwhile (in_group l) (n :: q) = n1 :: q1).
+Proof.
+  induction q as [|p r IH]; intros n n1 q1 H; cbn [skip_group] in H.
+  - inversion H; subst. cbn [dropwhile]. destruct (in_group l n1) eqn:E; [left|right]; repeat split; reflexivity.
+  - cbn [dropwhile]. fold (in_group l n) in H. destruct (in_group l n) eqn:E.
+    + apply IH in H. cbn [dropwhile] in H. exact H.
+    + inversion H; subst. right. rewrite E. split; reflexivity.
+Qed.
+
+Lemma skip_group_retag c l q n0 n1 q1 :
+  skip_group l (retag c n0) q = (n1, q1) ->
+  exists n1', skip_group l n0 q = (n1', q1) /\ (n1 = n1' \/ n1 = retag c n1').
+Proof.
+  destruct q as [|p r]; cbn [skip_group]; intro H.
+  - inversion H; subst. exists n0. split; [reflexivity|right; reflexivity].
+  - rewrite p_fl_retag in H. destruct (f_group (p_fl n0) =? l).
+    + exists n1. split; [exact H|left; reflexivity].
+    + inversion H; subst. exists n0. split; [reflexivity|right; reflexivity].
+Qed.
+
+(* what next() skips because the peer abandoned group l: exactly the leading run of that group
+   (a lone packet of our own is sent regardless) *)
+Lemma abandon_spec i l q :
+  abandon i l q =
+  match q with
+  | [n] => if is_own i n then q else if 0 <? l then dropwhile (in_group l) q else q
+  | _ => if 0 <? l then dropwhile (in_group l) q else q
+  end.
+Proof.
+  unfold abandon. destruct q as [|n r]; [destruct (0 <? l); reflexivity|].
+  assert (G : (if 0 <? l then match skip_group l n r with (n1, q1) => if f_group (p_fl n1) =? l then [] else n1 :: q1 end
+               else n :: r) = if 0 <? l then dropwhile (in_group l) (n :: r) else n :: r).
+  { destruct (0 <? l); [|reflexivity]. destruct (skip_group l n r) as [n1 q1] eqn:E.
+    apply skip_group_spec in E. fold (in_group l n1). destruct E as [[E1 [E2 E3]]|[E1 E2]]; rewrite E1, ?E3, ?E2; reflexivity. }
+  destruct r as [|p r'].
+  - cbn [is_nil andb]. destruct (is_own i n); [reflexivity|exact G].
+  - cbn [is_nil andb]. exact G.
+Qed.
+
+Lemma abandon_zero i q : abandon i 0 q = q.
+Proof. rewrite abandon_spec. destruct q as [|n [|p r]]; try reflexivity. destruct (is_own i n); reflexivity. Qed.
+
+Lemma abandon_suffix i l q : exists dropped, q = dropped ++ abandon i l q.
+Proof.
+  rewrite abandon_spec.
+  assert (G : exists d, q = d ++ (if 0 <? l then dropwhile (in_group l) q else q)).
+  { destruct (0 <? l); [exists (takewhile (in_group l) q); apply take_drop_while|exists []; reflexivity]. }
+  destruct q as [|n [|p r]]; try exact G. destruct (is_own i n); [exists []; reflexivity|exact G].
+Qed.
+
+Lemma keepalive_own i t : is_own i (keepalive i t) = true.
+Proof. unfold is_own, keepalive. cbn [p_dev]. rewrite Z.eqb_refl. apply orb_true_r. Qed.
+Lemma keepalive_nop i t : is_nop (keepalive i t) = true.
+Proof. reflexivity. Qed.
+
+Lemma pick_spec c st :
+  (pending st = [] /\ pick c st = (if c_inter c then None else Some (keepalive (c_own c) []), [])) \/
+  (exists n0 q, pending st = n0 :: q /\ pick c st = (Some n0, q)).
+Proof.
+  unfold pending, pick. destruct (s_peek st) as [p|].
+  - right. exists p, (s_q st). split; reflexivity.
+  - destruct (s_q st) as [|p r].
+    + left. split; [reflexivity|]. destruct (c_inter c); reflexivity.
+    + right. exists p, r. split; reflexivity.
+Qed.
+
+(* the shapes of one call of next() *)
+Lemma session_next_cases c st tx st' :
+  session_next c st = (Some tx, st') ->
+  (exists p, tx = TSingle p /\ st' = mkS [] None 0 /\
+     ((pending st = [] /\ p = norm (c_own c) (retag c (keepalive (c_own c) []))) \/
+      (exists n0, pending st = [n0] /\ is_own (c_own c) n0 = true /\ p = norm (c_own c) (retag c n0)) \/
+      (exists n0 q, pending st = n0 :: q /\ abandon (c_own c) (s_last st) (pending st) = [] /\
+                    p = keepalive (c_own c) (p_tags (retag c n0)))))
+  \/
+  (exists n0 q dropped n1' n1 q1,
+     pending st = n0 :: q /\ pending st = dropped ++ n1' :: q1 /\
+     abandon (c_own c) (s_last st) (pending st) = n1' :: q1 /\ (n1 = n1' \/ n1 = retag c n1') /\
+     finish c n1 q1 (p_tags (retag c n0)) = (Some tx, st')).
+Proof.
+  intro H. unfold session_next in H.
+  destruct (pick_spec c st) as [[Hp Hk]|[n0 [q [Hp Hk]]]]; rewrite Hk in H.
+  - destruct (c_inter c); [discriminate|].
+    change (match c_ptags c with Some t => set_tags (keepalive (c_own c) []) t | None => keepalive (c_own c) [] end)
+      with (retag c (keepalive (c_own c) [])) in H.
+    rewrite is_own_retag, keepalive_own in H. cbn [is_nil andb] in H. inversion H; subst.
+    left. eexists. split; [reflexivity|]. split; [reflexivity|]. left. split; [assumption|reflexivity].
+  - change (match c_ptags c with Some t => set_tags n0 t | None => n0 end) with (retag c n0) in H.
+    rewrite is_own_retag in H.
+    destruct (is_nil q && is_own (c_own c) n0) eqn:E1.
+    + inversion H; subst. apply andb_prop in E1. destruct E1 as [Eq Eo].
+      destruct q; [|discriminate]. left. eexists. split; [reflexivity|]. split; [reflexivity|].
+      right. left. exists n0. repeat split; assumption.
+    + assert (Hab : abandon (c_own c) (s_last st) (n0 :: q) =
+                    if 0 <? s_last st then match skip_group (s_last st) n0 q with
+                                           | (n1, q1) => if f_group (p_fl n1) =? s_last st then [] else n1 :: q1 end
+                    else n0 :: q).
+      { unfold abandon. rewrite E1. reflexivity. }
+      rewrite Hp. rewrite Hab.
+      destruct (0 <? s_last st) eqn:EL.
+      * destruct (skip_group (s_last st) (retag c n0) q) as [n1 q1] eqn:ES.
+        destruct (skip_group_retag _ _ _ _ _ _ ES) as [n1' [ES' Hrel]].
+        rewrite ES'.
+        assert (Hg : f_group (p_fl n1) = f_group (p_fl n1')).
+        { destruct Hrel as [Hr|Hr]; rewrite Hr; [reflexivity|rewrite p_fl_retag; reflexivity]. }
+        rewrite Hg in H.
+        pose proof (skip_group_spec _ _ _ _ _ ES') as Hsp. fold (in_group (s_last st) n1') in H |- *.
+        destruct Hsp as [[G1 [G2 G3]]|[G1 G2]]; rewrite G1 in H |- *.
+        -- inversion H; subst. left. eexists. split; [reflexivity|]. split; [reflexivity|].
+           right. right. exists n0, q. repeat split; reflexivity.
+        -- right. exists n0, q, (takewhile (in_group (s_last st)) (n0 :: q)), n1', n1, q1.
+           split; [reflexivity|]. split; [rewrite <- G2; apply take_drop_while|].
+           split; [reflexivity|]. split; [exact Hrel|exact H].
+      * right. exists n0, q, [], n0, (retag c n0), q.
+        split; [reflexivity|]. split; [reflexivity|]. split; [reflexivity|].
+        split; [right; reflexivity|exact H].
+Qed.
+
+(* mergeTags keeps exactly the union of the two tag lists *)
+Lemma merge_tags_in a b y : In y (merge_tags a b) <-> In y a \/ In y b.
+Proof.
+  unfold merge_tags. destruct a as [|x a]; destruct b as [|z b].
+  - cbn. tauto.
+  - cbn [In]. tauto.
+  - cbn [In]. tauto.
+  - rewrite nodup_In, in_app_iff. tauto.
+Qed.
+
+Lemma merge_tags_nodup a b : a <> [] -> b <> [] -> NoDup (merge_tags a b).
+Proof.
+  intros Ha Hb. unfold merge_tags. destruct a; [congruence|]. destruct b; [congruence|]. apply NoDup_nodup.
+Qed.
+
+Lemma wf_tx_set_tags reg i x g : wf_tx reg i x -> wf_tx reg i (tx_set_tags x g).
+Proof. destruct x as [p|o]; cbn [tx_set_tags wf_tx]; [|exact (fun h => h)]. intros [H1 H2]. split; assumption. Qed.
+
+Lemma tx_packets_set_tags x g : map untag (tx_packets (tx_set_tags x g)) = map untag (tx_packets x).
+Proof. destruct x; reflexivity. Qed.
+
+Lemma tx_tags_set_tags x g : tx_tags (tx_set_tags x g) = g.
+Proof. destruct x; reflexivity. Qed.
+
+Lemma pending_mkS rest k l : pending (mkS rest k l) = optl k ++ rest.
+Proof. unfold pending. cbn [s_peek s_q]. destruct k; reflexivity. Qed.
+
+Lemma first_tags_spec c st :
+  first_tags c st =
+  match pending st with
+  | n0 :: _ => p_tags (retag c n0)
+  | [] => if c_inter c then [] else p_tags (retag c (keepalive (c_own c) []))
+  end.
+Proof.
+  unfold first_tags. destruct (pick_spec c st) as [[Hp Hk]|[n0 [q [Hp Hk]]]]; rewrite Hk, Hp; cbn [fst].
+  - destruct (c_inter c); [reflexivity|]. unfold retag. destruct (c_ptags c); reflexivity.
+  - unfold retag. destruct (c_ptags c); reflexivity.
+Qed.
+
+Lemma finish_spec c reg n1 q1 t tx st' :
+  finish c n1 q1 t = (Some tx, st') -> wf_conf c -> Forall (src_ok reg (c_own c)) (n1 :: q1) ->
+  exists u kept,
+    q1 = u ++ pending st' /\ s_last st' = 0 /\
+    map untag (tx_packets tx) = map (fun p => untag (norm (c_own c) p)) kept /\
+    nonnop kept = nonnop (n1 :: u) /\ incl kept (n1 :: u) /\
+    wf_tx reg (c_own c) tx /\
+    (forall y, In y (tx_tags tx) <-> In y t \/ exists v, In v (tx_packets tx) /\ In y (p_tags v)).
+Proof.
+  intros H [Hi HNP] Hall. unfold finish in H.
+  destruct (next_packet (c_frag c) (c_packets c) (c_own c) (Some n1) q1 t) as [[o k] rest] eqn:EN.
+  destruct (next_packet_spec reg _ _ _ _ _ _ _ _ _ EN Hi HNP Hall)
+    as [x [u [kept [H0 [H1 [H2 [H3 [H4 [H5 [H6 [H7 H8]]]]]]]]]]].
+  subst o. inversion H; subst. clear H.
+  exists u, kept. rewrite pending_mkS. split; [reflexivity|]. split; [reflexivity|].
+  rewrite tx_packets_set_tags. split; [exact H2|]. split; [exact H3|]. split; [exact H4|].
+  split; [apply wf_tx_set_tags; exact H5|].
+  intro y. rewrite tx_tags_set_tags, merge_tags_in.
+  destruct x as [p|o]; cbn [tx_set_tags tx_packets tx_tags] in *.
+  - split.
+    + intro Hy. right. eexists. split; [left; reflexivity|]. cbn [set_tags p_tags].
+      apply merge_tags_in. exact Hy.
+    + intros [Hy|[v [[Hv|[]] Hy]]]; [right; exact Hy|]. subst v. cbn [set_tags p_tags] in Hy.
+      apply merge_tags_in in Hy. exact Hy.
+  - split.
+    + intros [Hy|Hy]; [|left; exact Hy]. apply H6 in Hy. destruct Hy as [Hy|[v [Hv Hy]]]; [left; exact Hy|].
+      right. exists (norm (c_own c) v). split; [rewrite H8; apply in_map; exact Hv|rewrite p_tags_norm; exact Hy].
+    + intros [Hy|[v [Hv Hy]]]; [right; exact Hy|]. left. rewrite H8 in Hv. apply in_map_iff in Hv.
+      destruct Hv as [w [Hw1 Hw2]]. subst v. rewrite p_tags_norm in Hy. exact (H7 w y Hw2 Hy).
+Qed.
+
+(* one call of next(): what it consumes, what it sends, what it leaves *)
+Lemma session_next_spec c reg st tx st' :
+  wf_conf c -> Forall (src_ok reg (c_own c)) (pending st) ->
+  session_next c st = (Some tx, st') ->
+  exists dropped used,
+    pending st = dropped ++ used ++ pending st' /\
+    abandon (c_own c) (s_last st) (pending st) = used ++ pending st' /\
+    s_last st' = 0 /\
+    (pending st <> [] -> dropped ++ used <> []) /\
+    nonnop (map untag (tx_packets tx)) = nonnop (map (fun p => untag (norm (c_own c) p)) used) /\
+    wf_tx reg (c_own c) tx /\
+    (forall y, In y (tx_tags tx) <-> In y (first_tags c st) \/ exists v, In v (tx_packets tx) /\ In y (p_tags v)).
+Proof.
+  intros Hw Hall H. pose proof Hw as [Hi HNP].
+  assert (Hsingle_tags : forall p, (forall y, In y (first_tags c st) -> In y (p_tags p)) ->
+            forall y, In y (tx_tags (TSingle p)) <-> In y (first_tags c st) \/ exists v, In v (tx_packets (TSingle p)) /\ In y (p_tags v)).
+  { intros p Hsub y. cbn [tx_tags tx_packets]. split.
+    - intro Hy. right. exists p. split; [left; reflexivity|exact Hy].
+    - intros [Hy|[v [[Hv|[]] Hy]]]; [apply Hsub; exact Hy|subst v; exact Hy]. }
+  destruct (session_next_cases _ _ _ _ H) as [[p [Htx [Hst Hc]]]|[n0 [q [dropped [n1' [n1 [q1 [Hp [Hsplit [Hab [Hrel Hfin]]]]]]]]]]].
+  - subst tx st'. change (pending (mkS [] None 0)) with (@nil packet). cbn [s_last].
+    destruct Hc as [[Hp Hpk]|[[n0 [Hp [Hown Hpk]]]|[n0 [q [Hp [Hab Hpk]]]]]].
+    + exists [], []. rewrite Hp. cbn [app].
+      split; [reflexivity|]. split; [reflexivity|]. split; [reflexivity|]. split; [congruence|].
+      split; [|split].
+      * subst p. cbn [tx_packets map]. rewrite nonnop_cons_nop; [reflexivity|].
+        rewrite is_nop_untag, is_nop_norm, is_nop_retag. reflexivity.
+      * subst p. cbn [wf_tx]. split; [apply norm_own_dev; rewrite is_own_retag; apply keepalive_own|].
+        rewrite packable_norm, packable_retag. reflexivity.
+      * apply Hsingle_tags. rewrite first_tags_spec, Hp. subst p. rewrite p_tags_norm.
+        destruct (c_inter c); [intros y []|exact (fun y h => h)].
+    + exists [], [n0]. rewrite Hp. cbn [app]. rewrite Hp in Hall. inversion Hall as [|? ? Hn0 _]; subst.
+      split; [reflexivity|]. split.
+      { unfold abandon. rewrite Hown. reflexivity. }
+      split; [reflexivity|]. split; [congruence|]. split; [|split].
+      * cbn [tx_packets map]. rewrite retag_untag_norm. reflexivity.
+      * cbn [wf_tx]. split; [apply norm_own_dev; rewrite is_own_retag; exact Hown|].
+        rewrite packable_norm, packable_retag. apply Hn0.
+      * apply Hsingle_tags. rewrite first_tags_spec, Hp, p_tags_norm. exact (fun y h => h).
+    + exists (pending st), []. cbn [app]. rewrite app_nil_r.
+      split; [reflexivity|]. split; [exact Hab|]. split; [reflexivity|]. split; [exact (fun h => h)|].
+      split; [|split].
+      * subst p. reflexivity.
+      * subst p. cbn [wf_tx]. split; reflexivity.
+      * apply Hsingle_tags. rewrite first_tags_spec, Hp. subst p. exact (fun y h => h).
+  - assert (Hsuf : Forall (src_ok reg (c_own c)) (n1' :: q1)).
+    { rewrite Hsplit in Hall. apply Forall_app in Hall. apply Hall. }
+    assert (Hall1 : Forall (src_ok reg (c_own c)) (n1 :: q1)).
+    { inversion Hsuf as [|? ? Ha Hb]; subst. constructor; [|exact Hb].
+      destruct Hrel as [Hr|Hr]; subst n1; [exact Ha|apply src_ok_retag; exact Ha]. }
+    destruct (finish_spec _ reg _ _ _ _ _ Hfin Hw Hall1) as [u [kept [F1 [F2 [F3 [F4 [F5 [F6 F7]]]]]]]].
+    exists dropped, (n1' :: u).
+    split; [rewrite Hsplit, F1; reflexivity|]. split; [rewrite Hab, F1; reflexivity|].
+    split; [exact F2|]. split; [intros _; destruct dropped; discriminate|].
+    split; [|split; [exact F6|]].
+    + rewrite F3, nonnop_map_untag_norm, F4, <- nonnop_map_untag_norm. cbn [map].
+      destruct Hrel as [Hr|Hr]; subst n1; [reflexivity|]. rewrite retag_untag_norm. reflexivity.
+    + intro y. rewrite first_tags_spec, Hp. apply F7.
+Qed.
+
+(* ------------------------------------------------------------------ 5. draining *)
+
+Lemma next_packet_some F NP i n q t o k rest :
+  next_packet F NP i (Some n) q t = (o, k, rest) -> o <> None.
+Proof.
+  unfold next_packet. destruct ((NP <=? 1) || is_nil q).
+  - destruct (is_own i n); intro H; inversion H; discriminate.
+  - destruct (np_loop F i (Z.to_nat NP) (n :: q) 0 false (mkC i fl_multi [] [])) as [[o' k'] r'].
+    intro H; inversion H; discriminate.
+Qed.
+
+Lemma finish_some c n q t o st' : finish c n q t = (o, st') -> o <> None.
+Proof.
+  unfold finish. destruct (next_packet (c_frag c) (c_packets c) (c_own c) (Some n) q t) as [[x k] rest] eqn:E.
+  apply next_packet_some in E. intro H. inversion H; subst. destruct x; [discriminate|congruence].
+Qed.
+
+(* next() returns nothing only when nothing is pending *)
+Lemma session_next_none c st st' : session_next c st = (None, st') -> pending st = [].
+Proof.
+  unfold session_next. destruct (pick_spec c st) as [[Hp Hk]|[n0 [q [Hp Hk]]]]; rewrite Hk; [intros _; exact Hp|].
+  intro H. exfalso.
+  destruct (is_nil q && is_own (c_own c) (match c_ptags c with Some t => set_tags n0 t | None => n0 end));
+    [discriminate|].
+  destruct (0 <? s_last st).
+  - destruct (skip_group (s_last st) _ q) as [n1 q1].
+    destruct (f_group (p_fl n1) =? s_last st); [discriminate|]. apply finish_some in H. congruence.
+  - apply finish_some in H. congruence.
+Qed.
+
+(* what the peer's handlers see of one transmission is what direct processing of the consumed
+   packets would have produced; the only possible error is the empty container *)
+Lemma step_spec c reg st tx st' :
+  wf_conf c -> Forall (src_ok reg (c_own c)) (pending st) ->
+  session_next c st = (Some tx, st') ->
+  exists dropped used,
+    pending st = dropped ++ used ++ pending st' /\
+    abandon (c_own c) (s_last st) (pending st) = used ++ pending st' /\
+    s_last st' = 0 /\
+    (pending st <> [] -> dropped ++ used <> []) /\
+    map untag_d (fst (recv_tx reg (c_own c) tx)) = flat_map (direct (c_own c)) used /\
+    (snd (recv_tx reg (c_own c) tx) = 0 \/
+     (snd (recv_tx reg (c_own c) tx) = E_COUNT /\ fst (recv_tx reg (c_own c) tx) = [] /\
+      exists o, tx = TMulti o /\ c_in o = [])).
+Proof.
+  intros Hw Hall H.
+  destruct (session_next_spec _ reg _ _ _ Hw Hall H) as [dropped [used [H1 [H2 [H3 [H4 [H5 [H6 _]]]]]]]].
+  exists dropped, used. repeat (split; [assumption|]).
+  destruct Hw as [Hi _]. destruct (recv_tx_spec reg _ _ Hi H6) as [R1 R2]. split; [|exact R2].
+  rewrite R1, <- flat_map_direct'_nonnop, H5, flat_map_direct'_nonnop, flat_map_direct. reflexivity.
+Qed.
+
+Lemma app_length_lt {A} (a b c : list A) : a ++ b <> [] -> (length c < length (a ++ b ++ c))%nat.
+Proof.
+  intro H. rewrite app_assoc, app_length. destruct (a ++ b); [congruence|]. cbn [length]. lia.
+Qed.
+
+Lemma Forall_suffix {A} (P : A -> Prop) a b : Forall P (a ++ b) -> Forall P b.
+Proof. intro H. apply Forall_app in H. apply H. Qed.
+
+Lemma deliveries_cons s l : deliveries (s :: l) = st_dlv s ++ deliveries l.
+Proof. reflexivity. Qed.
+
+(* drain_delivers_queue, for every state and every fuel that exceeds the number of pending packets *)
+Lemma drain_fuel_delivers c reg : wf_conf c -> forall fuel st,
+  (length (pending st) < fuel)%nat -> Forall (src_ok reg (c_own c)) (pending st) ->
+  map untag_d (deliveries (drain_fuel c reg fuel st)) =
+  flat_map (direct (c_own c)) (abandon (c_own c) (s_last st) (pending st)).
+Proof.
+  intro Hw. induction fuel as [|f IH]; intros st Hf Hall; [lia|].
+  cbn [drain_fuel]. destruct (session_next c st) as [[tx|] st'] eqn:E.
+  - destruct (step_spec _ reg _ _ _ Hw Hall E) as [dropped [used [H1 [H2 [H3 [H4 [H5 _]]]]]]].
+    destruct (recv_tx reg (c_own c) tx) as [d e]. cbn [fst] in H5.
+    rewrite deliveries_cons. cbn [st_dlv]. rewrite map_app, H5, H2, flat_map_app. f_equal.
+    destruct (pending st') as [|x r] eqn:Ep; [reflexivity|]. cbn [is_nil]. rewrite <- Ep in H1 |- *.
+    assert (Hne : pending st <> []).
+    { intro Hc. rewrite Hc in H1. destruct dropped; [|discriminate]. destruct used; [|discriminate].
+      cbn [app] in H1. rewrite Ep in H1. discriminate. }
+    rewrite IH.
+    + rewrite H3, abandon_zero. reflexivity.
+    + pose proof (app_length_lt dropped used (pending st') (H4 Hne)) as HL. rewrite <- H1 in HL. lia.
+    + rewrite H1 in Hall. apply Forall_suffix in Hall. apply Forall_suffix in Hall. exact Hall.
+  - apply session_next_none in E. rewrite E. reflexivity.
+Qed.
+
+Lemma queue_src_ok reg i q :
+  Forall (fun p => queueable p = true) q -> all_reg reg i q -> Forall (src_ok reg i) q.
+Proof.
+  intros H1 H2. unfold all_reg in H2. rewrite Forall_forall in *. intros p Hp.
+  split; [apply queueable_packable; apply H1; exact Hp|apply H2; exact Hp].
+Qed.
+
+Lemma drain_delivers_queue c reg last q :
+  wf_conf c -> Forall (fun p => queueable p = true) q -> all_reg reg (c_own c) q ->
+  map untag_d (deliveries (drain c reg (mkS q None last))) =
+  flat_map (direct (c_own c)) (abandon (c_own c) last q).
+Proof.
+  intros Hw Hq Hr. unfold drain.
+  rewrite (drain_fuel_delivers c reg Hw); [reflexivity|lia|].
+  apply queue_src_ok; assumption.
+Qed.
+
+(* every step of a drain is one call of next() on a state whose pending packets are a suffix of the queue *)
+Lemma drain_fuel_steps c reg : wf_conf c -> forall fuel st s,
+  Forall (src_ok reg (c_own c)) (pending st) ->
+  In s (drain_fuel c reg fuel st) ->
+  exists st0 pre, pending st = pre ++ pending st0 /\
+    session_next c st0 = (Some (st_tx s), st_after s) /\
+    recv_tx reg (c_own c) (st_tx s) = (st_dlv s, st_err s).
+Proof.
+  intro Hw. induction fuel as [|f IH]; intros st s Hall Hin; [destruct Hin|].
+  cbn [drain_fuel] in Hin. destruct (session_next c st) as [[tx|] st'] eqn:E; [|destruct Hin].
+  destruct (recv_tx reg (c_own c) tx) as [d e] eqn:ER.
+  destruct Hin as [Hs|Hin].
+  - subst s. exists st, []. cbn [st_tx st_after st_dlv st_err]. repeat split; assumption.
+  - destruct (is_nil (pending st')); [destruct Hin|].
+    destruct (step_spec _ reg _ _ _ Hw Hall E) as [dropped [used [H1 _]]].
+    assert (Hall' : Forall (src_ok reg (c_own c)) (pending st')).
+    { rewrite H1 in Hall. apply Forall_suffix in Hall. apply Forall_suffix in Hall. exact Hall. }
+    destruct (IH _ _ Hall' Hin) as [st0 [pre [P1 P2]]].
+    exists st0, (dropped ++ used ++ pre). split; [|exact P2].
+    rewrite H1, P1. repeat rewrite <- app_assoc. reflexivity.
+Qed.
+
+(* progress: a call of next() with something pending consumes at least one packet *)
+Lemma progress c reg st tx st' :
+  wf_conf c -> Forall (src_ok reg (c_own c)) (pending st) ->
+  session_next c st = (Some tx, st') -> pending st <> [] ->
+  (length (pending st') < length (pending st))%nat /\ exists pre, pre <> [] /\ pending st = pre ++ pending st'.
+Proof.
+  intros Hw Hall H Hne.
+  destruct (session_next_spec _ reg _ _ _ Hw Hall H) as [dropped [used [H1 [_ [_ [H4 _]]]]]].
+  split.
+  - pose proof (app_length_lt dropped used (pending st') (H4 Hne)) as HL. rewrite <- H1 in HL. exact HL.
+  - exists (dropped ++ used). split; [exact (H4 Hne)|]. rewrite H1, app_assoc. reflexivity.
+Qed.
+
+(* the fuel of drain never runs out: more fuel changes nothing, and the last step leaves nothing pending *)
+Lemma drain_fuel_stable c reg : wf_conf c -> forall f1 f2 st,
+  (length (pending st) < f1)%nat -> (length (pending st) < f2)%nat ->
+  Forall (src_ok reg (c_own c)) (pending st) ->
+  drain_fuel c reg f1 st = drain_fuel c reg f2 st.
+Proof.
+  intro Hw. induction f1 as [|f1 IH]; intros f2 st H1 H2 Hall; [lia|].
+  destruct f2 as [|f2]; [lia|]. cbn [drain_fuel].
+  destruct (session_next c st) as [[tx|] st'] eqn:E; [|reflexivity].
+  destruct (recv_tx reg (c_own c) tx) as [d e]. f_equal.
+  destruct (pending st') as [|x r] eqn:Ep; [reflexivity|]. cbn [is_nil].
+  assert (Hne : pending st <> []).
+  { destruct (session_next_spec _ reg _ _ _ Hw Hall E) as [dropped [used [G1 [G2 _]]]].
+    intro Hc. rewrite Hc in G1. destruct dropped; [|discriminate]. destruct used; [|discriminate].
+    cbn [app] in G1. rewrite Ep in G1. discriminate. }
+  destruct (progress _ reg _ _ _ Hw Hall E Hne) as [HL [pre [_ Hpre]]].
+  apply IH; try lia. rewrite Hpre in Hall. apply Forall_suffix in Hall. exact Hall.
+Qed.
+
+Lemma drain_fuel_ends_empty c reg : wf_conf c -> forall fuel st s,
+  (length (pending st) < fuel)%nat -> Forall (src_ok reg (c_own c)) (pending st) ->
+  last (drain_fuel c reg fuel st) s = s \/ pending (st_after (last (drain_fuel c reg fuel st) s)) = [].
+Proof.
+  intro Hw. induction fuel as [|f IH]; intros st s Hf Hall; [lia|].
+  cbn [drain_fuel]. destruct (session_next c st) as [[tx|] st'] eqn:E; [|left; reflexivity].
+  destruct (recv_tx reg (c_own c) tx) as [d e].
+  destruct (pending st') as [|x r] eqn:Ep; cbn [is_nil].
+  - right. cbn [last st_after]. exact Ep.
+  - assert (Hne : pending st <> []).
+    { destruct (session_next_spec _ reg _ _ _ Hw Hall E) as [dropped [used [G1 [G2 _]]]].
+      intro Hc. rewrite Hc in G1. destruct dropped; [|discriminate]. destruct used; [|discriminate].
+      cbn [app] in G1. rewrite Ep in G1. discriminate. }
+    destruct (progress _ reg _ _ _ Hw Hall E Hne) as [HL [pre [_ Hpre]]].
+    assert (Hall' : Forall (src_ok reg (c_own c)) (pending st')).
+    { rewrite Hpre in Hall. apply Forall_suffix in Hall. exact Hall. }
+    assert (Hf' : (length (pending st') < f)%nat) by lia.
+    set (s0 := mkStep tx st' d e).
+    destruct (drain_fuel c reg f st') as [|y l] eqn:ED.
+    + (* impossible: st' has pending packets, so next() returns something *)
+      exfalso. destruct f as [|f']; [lia|]. cbn [drain_fuel] in ED.
+      destruct (session_next c st') as [[tx2|] st2] eqn:E2.
+      * destruct (recv_tx reg (c_own c) tx2); discriminate.
+      * apply session_next_none in E2. rewrite Ep in E2. discriminate.
+    + specialize (IH st' s0 Hf' Hall'). rewrite ED in IH.
+      change (last (s0 :: y :: l) s) with (last (y :: l) s).
+      assert (HL2 : forall a b : step, last (y :: l) a = last (y :: l) b).
+      { clear. revert y. induction l as [|z l IHl]; intros y a b; [reflexivity|]. 
+        change (last (y :: z :: l) a) with (last (z :: l) a). change (last (y :: z :: l) b) with (last (z :: l) b).
+        apply IHl. }
+      rewrite (HL2 s s0). destruct IH as [IH|IH]; [|right; exact IH].
+      (* the last step would be s0 itself only if it were in the list: use the pending fact *)
+      right. rewrite IH. cbn [s0 st_after].
+      (* last (y :: l) s0 = s0 means the default was returned or the last element equals s0;
+         in both cases we need pending st' = [] which contradicts Ep: derive from membership *)
+      exfalso.
+      assert (Hin : In (last (y :: l) s0) (y :: l)).
+      { clear. revert y. induction l as [|z l IHl]; intro y; [left; reflexivity|].
+        change (last (y :: z :: l) s0) with (last (z :: l) s0). right. apply IHl. }
+      rewrite IH in Hin. rewrite <- ED in Hin.
+      destruct (drain_fuel_steps c reg Hw _ _ _ Hall' Hin) as [st0 [pre0 [Q1 [Q2 _]]]].
+      cbn [s0 st_tx st_after] in Q2.
+      (* next() from st0 ends in st' while st0's pending is a suffix of st': no progress *)
+      assert (Hall0 : Forall (src_ok reg (c_own c)) (pending st0)).
+      { rewrite Q1 in Hall'. apply Forall_suffix in Hall'. exact Hall'. }
+      assert (Hne0 : pending st0 <> []).
+      { intro Hc. destruct (session_next_spec _ reg _ _ _ Hw Hall0 Q2) as [dr [us [G1 _]]].
+        rewrite Hc in G1. destruct dr; [|discriminate]. destruct us; [|discriminate].
+        cbn [app] in G1. rewrite Ep in G1. discriminate. }
+      destruct (progress _ reg _ _ _ Hw Hall0 Q2 Hne0) as [HL0 _].
+      rewrite Q1, app_length in HL0. lia.
+Qed.
+
+(* ------------------------------------------------------------------ 6. carry-over, budget, keep-alive-only queues *)
+
+(* the carried-over packet is never a keep-alive of our own (those are elided before the size test) *)
+Lemma np_loop_carry F i : forall fuel l s m o o' x rest,
+  np_loop F i fuel l s m o = (o', Some x, rest) -> is_nop x && is_own i x = false.
+Proof.
+  induction fuel as [|f IH]; intros l s m o o' x rest H; [cbn [np_loop] in H; discriminate|].
+  destruct l as [|n r]; [cbn [np_loop] in H; discriminate|]. cbn [np_loop] in H.
+  destruct (is_nop n && (((0 <? s) && negb m) || is_own i n)) eqn:E1; [exact (IH _ _ _ _ _ _ _ H)|].
+  destruct ((0 <? s) && (F <? s + psize n)); [|exact (IH _ _ _ _ _ _ _ H)].
+  inversion H; subst. destruct (is_nop x); [|reflexivity]. cbn [andb] in *.
+  destruct (is_own i x); [|reflexivity]. rewrite orb_true_r in E1. discriminate.
+Qed.
+
+Lemma np_loop_first F i f n r o o' k rest :
+  is_nop n && is_own i n = false -> Forall (fun p => packable p = true) (n :: r) ->
+  np_loop F i (S f) (n :: r) 0 false o = (o', k, rest) -> c_in o = [] ->
+  exists X, c_in o' = norm i n :: X.
+Proof.
+  intros Hn Hp H Ho. cbn [np_loop] in H. inversion Hp as [|? ? Hpn Hpr]; subst.
+  change (0 <? 0) with false in H. cbn [andb orb] in H. rewrite Hn in H.
+  set (md := negb (is_own i n) && negb false) in *.
+  set (o1 := if md then mkC (c_dev o) (set_mdev (c_fl o)) (c_tags o) (c_in o) else o) in *.
+  assert (Ha : c_in o1 = []) by (subst o1; destruct md; exact Ho).
+  assert (Hpn' : packable (norm i n) = true) by (rewrite packable_norm; exact Hpn).
+  rewrite (write_unpack_packable o1 (norm i n) Hpn') in H.
+  destruct (np_loop_struct _ _ _ _ _ _ _ _ _ _ H Hpr) as [used [kept [_ [H2 _]]]].
+  cbn [c_in] in H2. rewrite Ha in H2. cbn [app] in H2. eexists. exact H2.
+Qed.
+
+Lemma first_packet_set_tags x g v :
+  first_packet x = Some v -> exists v', first_packet (tx_set_tags x g) = Some v' /\ untag v' = untag v.
+Proof.
+  destruct x as [p|o]; cbn [first_packet tx_set_tags c_in].
+  - intro H. inversion H; subst. eexists. split; reflexivity.
+  - intro H. exists v. split; [exact H|reflexivity].
+Qed.
+
+Lemma next_packet_first F NP i n q t x k rest :
+  next_packet F NP i (Some n) q t = (Some x, k, rest) ->
+  is_nop n && is_own i n = false -> Forall (fun p => packable p = true) (n :: q) ->
+  exists v, first_packet x = Some v /\ untag v = untag (norm i n).
+Proof.
+  intros H Hn Hp. unfold next_packet in H. inversion Hp as [|? ? Hpn Hpq]; subst.
+  destruct ((NP <=? 1) || is_nil q) eqn:Efast.
+  - destruct (is_own i n) eqn:Eo.
+    + inversion H; subst. eexists. split; reflexivity.
+    + rewrite (write_unpack_packable _ n Hpn) in H. inversion H; subst. cbn [first_packet c_in app].
+      exists n. split; [reflexivity|]. rewrite (norm_foreign i n Eo). reflexivity.
+  - apply orb_false_elim in Efast. destruct Efast as [E1 _].
+    destruct (np_loop F i (Z.to_nat NP) (n :: q) 0 false (mkC i fl_multi [] [])) as [[o' k'] r'] eqn:EL.
+    inversion H; subst. clear H.
+    destruct (Z.to_nat NP) as [|f] eqn:EN; [lia|].
+    destruct (np_loop_first _ _ _ _ _ _ _ _ _ Hn Hp EL eq_refl) as [X HX].
+    exists (norm i n). split; [|reflexivity]. unfold unwrap.
+    destruct ((f_len (c_fl o') =? 1) && negb (f_mdev (c_fl o'))).
+    + rewrite HX. destruct X; cbn [first_packet c_in]; [reflexivity|]. rewrite HX. reflexivity.
+    + cbn [first_packet]. rewrite HX. reflexivity.
+Qed.
+
+(* carry_over_never_lost: the packet that did not fit is peek and opens the next transmission *)
+Lemma carry_over c st tx st' k :
+  wf_conf c -> Forall (fun p => packable p = true) (pending st) ->
+  session_next c st = (Some tx, st') -> s_peek st' = Some k ->
+  In k (pending st) /\
+  exists tx' st'', session_next c st' = (Some tx', st'') /\
+    exists v, first_packet tx' = Some v /\ untag v = untag (norm (c_own c) k).
+Proof.
+  intros [Hi HNP] Hp H Hk.
+  destruct (session_next_cases _ _ _ _ H) as [[p [_ [Hst _]]]|[n0 [q [dropped [n1' [n1 [q1 [Hpe [Hsplit [_ [Hrel Hfin]]]]]]]]]]].
+  { subst st'. discriminate. }
+  unfold finish in Hfin.
+  destruct (next_packet (c_frag c) (c_packets c) (c_own c) (Some n1) q1 (p_tags (retag c n0))) as [[o k'] rest] eqn:EN.
+  inversion Hfin; subst st'. cbn [s_peek] in Hk. subst k'. clear Hfin.
+  assert (Hsuf : Forall (fun p => packable p = true) (n1' :: q1)).
+  { rewrite Hsplit in Hp. apply Forall_suffix in Hp. exact Hp. }
+  assert (Hp1 : Forall (fun p => packable p = true) (n1 :: q1)).
+  { inversion Hsuf as [|? ? Ha Hb]; subst. constructor; [|exact Hb].
+    destruct Hrel as [Hr|Hr]; subst n1; [exact Ha|rewrite packable_retag; exact Ha]. }
+  (* the first transmission went through the loop *)
+  unfold next_packet in EN.
+  destruct ((c_packets c <=? 1) || is_nil q1) eqn:Efast.
+  { destruct (is_own (c_own c) n1); inversion EN. }
+  destruct (np_loop (c_frag c) (c_own c) (Z.to_nat (c_packets c)) (n1 :: q1) 0 false (mkC (c_own c) fl_multi [] []))
+    as [[o' k'] r'] eqn:EL.
+  inversion EN; subst. clear EN.
+  pose proof (np_loop_carry _ _ _ _ _ _ _ _ _ _ EL) as Hknop.
+  destruct (np_loop_struct _ _ _ _ _ _ _ _ _ _ EL Hp1) as [used [kept [S1 [_ [_ [_ [_ [_ [_ S8]]]]]]]]].
+  assert (Hfuel : Z.to_nat (c_packets c) <> O) by (apply orb_false_elim in Efast; lia).
+  specialize (S8 eq_refl Hfuel ltac:(discriminate)).
+  destruct used as [|x u]; [congruence|]. cbn [app optl] in S1. injection S1 as Hx Hq1. subst x.
+  assert (Hkin : In k q1) by (rewrite Hq1; apply in_or_app; right; left; reflexivity).
+  assert (Hprest : Forall (fun p => packable p = true) (k :: rest)).
+  { pose proof (Forall_inv_tail Hsuf) as Hb. rewrite Hq1 in Hb. apply Forall_suffix in Hb. exact Hb. }
+  split.
+  { rewrite Hsplit. apply in_or_app. right. right. exact Hkin. }
+  (* the second transmission *)
+  unfold session_next, pick. cbn [s_peek s_q s_last].
+  change (match c_ptags c with Some t => set_tags k t | None => k end) with (retag c k).
+  rewrite is_own_retag.
+  destruct (is_nil rest && is_own (c_own c) k).
+  { eexists _, _. split; [reflexivity|]. eexists. split; [reflexivity|]. apply retag_untag_norm. }
+  change (0 <? 0) with false. cbn iota.
+  unfold finish.
+  destruct (next_packet (c_frag c) (c_packets c) (c_own c) (Some (retag c k)) rest (p_tags (retag c k)))
+    as [[o2 k2] rest2] eqn:EN2.
+  destruct o2 as [x2|]; [|apply next_packet_some in EN2; congruence].
+  eexists _, _. split; [reflexivity|].
+  assert (Hp2 : Forall (fun p => packable p = true) (retag c k :: rest)).
+  { inversion Hprest; subst. constructor; [rewrite packable_retag|]; assumption. }
+  assert (Hn2 : is_nop (retag c k) && is_own (c_own c) (retag c k) = false)
+    by (rewrite is_nop_retag, is_own_retag; exact Hknop).
+  destruct (next_packet_first _ _ _ _ _ _ _ _ _ EN2 Hn2 Hp2) as [v [Hv1 Hv2]].
+  destruct (first_packet_set_tags x2 (merge_tags (tx_tags x2) (p_tags (retag c k))) v Hv1) as [v' [Hv'1 Hv'2]].
+  exists v'. split; [exact Hv'1|]. rewrite Hv'2, Hv2. apply retag_untag_norm.
+Qed.
+
+(* batch_within_budget *)
+Lemma p_len_retag c p : p_len (retag c p) = p_len p.
+Proof. unfold retag. destruct (c_ptags c); reflexivity. Qed.
+
+Lemma session_next_budget c st o st' :
+  wf_conf c -> Forall (fun p => queueable p = true) (pending st) ->
+  session_next c st = (Some (TMulti o), st') -> 1 < len (c_in o) ->
+  sum_size (c_in o) <= c_frag c /\ len (c_in o) <= c_packets c /\ f_len (c_fl o) = len (c_in o).
+Proof.
+  intros [Hi HNP] Hq H Hlen.
+  destruct (session_next_cases _ _ _ _ H) as [[p [Hc _]]|[n0 [q [dropped [n1' [n1 [q1 [Hpe [Hsplit [_ [Hrel Hfin]]]]]]]]]]].
+  { discriminate. }
+  assert (Hsuf : Forall (fun p => packable p = true /\ 0 <= p_len p) (n1' :: q1)).
+  { rewrite Hsplit in Hq. apply Forall_suffix in Hq. rewrite Forall_forall in *. intros x Hx.
+    split; [apply queueable_packable|apply queueable_len]; apply Hq; exact Hx. }
+  assert (Hp1 : Forall (fun p => packable p = true /\ 0 <= p_len p) (n1 :: q1)).
+  { inversion Hsuf as [|? ? Ha Hb]; subst. constructor; [|exact Hb].
+    destruct Hrel as [Hr|Hr]; subst n1; [exact Ha|rewrite packable_retag, p_len_retag; exact Ha]. }
+  assert (Hp1' : Forall (fun p => packable p = true) (n1 :: q1)).
+  { rewrite Forall_forall in *. intros x Hx. apply (Hp1 x Hx). }
+  unfold finish in Hfin.
+  destruct (next_packet (c_frag c) (c_packets c) (c_own c) (Some n1) q1 (p_tags (retag c n0))) as [[ox k'] rest] eqn:EN.
+  destruct ox as [x|]; [|discriminate]. inversion Hfin as [[Hx Hst]]. clear Hfin.
+  destruct x as [p|o0]; [discriminate|]. cbn [tx_set_tags] in Hx. inversion Hx; subst o. cbn [c_in c_fl] in *.
+  clear Hx.
+  unfold next_packet in EN.
+  destruct ((c_packets c <=? 1) || is_nil q1) eqn:Efast.
+  - destruct (is_own (c_own c) n1); [inversion EN|].
+    inversion Hp1' as [|? ? Hpn _]; subst.
+    rewrite (write_unpack_packable _ n1 Hpn) in EN. inversion EN; subst. cbn [c_in app] in Hlen.
+    change (len [n1]) with 1 in Hlen. lia.
+  - apply orb_false_elim in Efast. destruct Efast as [E1 _].
+    destruct (np_loop (c_frag c) (c_own c) (Z.to_nat (c_packets c)) (n1 :: q1) 0 false (mkC (c_own c) fl_multi [] []))
+      as [[o' k2] r'] eqn:EL.
+    assert (Hun : unwrap o' = TMulti o0) by (inversion EN; reflexivity).
+    assert (Ho : o0 = o').
+    { unfold unwrap in Hun. destruct ((f_len (c_fl o') =? 1) && negb (f_mdev (c_fl o'))).
+      - destruct (c_in o') as [|v [|w r]]; inversion Hun; reflexivity.
+      - inversion Hun; reflexivity. }
+    subst o0.
+    destruct (np_loop_flags _ _ _ _ _ _ _ _ _ _ EL Hp1' eq_refl eq_refl) as [G1 [G2 _]].
+    { cbn [c_in]. rewrite len_nil. lia. }
+    { intros _. constructor. }
+    cbn [c_in] in G2. rewrite len_nil in G2.
+    pose proof (np_loop_budget _ _ _ _ _ _ _ _ _ _ EL Hp1 eq_refl (Forall_nil _)) as B.
+    cbn [c_in] in B. specialize (B ltac:(right; rewrite len_nil; lia)).
+    split; [destruct B; [assumption|lia]|]. split; [lia|exact G1].
+Qed.
+
+(* the observation: a queue of keep-alives only *)
+Definition own_nop (i : Z) (p : packet) : bool := is_nop p && is_own i p.
+
+Lemma np_loop_all_nop F i : forall fuel l s m o,
+  Forall (fun p => own_nop i p = true) l -> np_loop F i fuel l s m o = (o, None, skipn fuel l).
+Proof.
+  induction fuel as [|f IH]; intros l s m o H; [reflexivity|].
+  destruct l as [|n r]; [reflexivity|]. inversion H as [|? ? Hn Hr]; subst. cbn [np_loop skipn].
+  unfold own_nop in Hn. apply andb_prop in Hn. destruct Hn as [Hn1 Hn2]. rewrite Hn1, Hn2, orb_true_r.
+  cbn [andb]. apply IH. exact Hr.
+Qed.
+
+Lemma all_nop_rejected c reg q :
+  wf_conf c -> 2 <= c_packets c -> (2 <= length q)%nat -> Forall (fun p => own_nop (c_own c) p = true) q ->
+  exists o st', session_next c (mkS q None 0) = (Some (TMulti o), st') /\
+    f_len (c_fl o) = 0 /\ c_in o = [] /\ recv_tx reg (c_own c) (TMulti o) = ([], E_COUNT).
+Proof.
+  intros [Hi HNP] H2 Hl Hall.
+  destruct q as [|n0 [|p r]]; cbn [length] in Hl; try lia.
+  unfold session_next, pick. cbn [s_peek s_q s_last].
+  change (match c_ptags c with Some t => set_tags n0 t | None => n0 end) with (retag c n0).
+  cbn [is_nil andb]. change (0 <? 0) with false. cbn iota.
+  unfold finish, next_packet. replace (c_packets c <=? 1) with false by lia. cbn [is_nil orb].
+  rewrite np_loop_all_nop.
+  2:{ inversion Hall as [|? ? Ha Hb]; subst. constructor; [|exact Hb].
+      unfold own_nop in *. rewrite is_nop_retag, is_own_retag. exact Ha. }
+  unfold unwrap. cbn [c_fl fl_multi f_len f_mdev c_in]. change (0 =? 1) with false. cbn [andb tx_set_tags tx_tags c_tags c_dev c_fl c_in].
+  eexists _, _. split; [reflexivity|]. cbn [c_fl c_in f_len]. split; [reflexivity|]. split; [reflexivity|].
+  cbn [recv_tx c_fl f_mdev c_dev f_len].
+  replace (c_own c =? 0) with false by lia. cbn [fl_multi f_mdev]. rewrite (Z.eqb_refl (c_own c)). reflexivity.
+Qed.
+
+(* a queue with at least one packet that is not a keep-alive: errors can only stem from an empty container *)
+Lemma drain_errors c reg last q s :
+  wf_conf c -> Forall (fun p => queueable p = true) q -> all_reg reg (c_own c) q ->
+  In s (drain c reg (mkS q None last)) ->
+  st_err s = 0 \/ (st_err s = E_COUNT /\ st_dlv s = [] /\ exists o, st_tx s = TMulti o /\ c_in o = []).
+Proof.
+  intros Hw Hq Hr Hin.
+  pose proof (queue_src_ok reg _ _ Hq Hr) as Hall.
+  destruct (drain_fuel_steps c reg Hw _ (mkS q None last) _ Hall Hin) as [st0 [pre [P1 [P2 P3]]]].
+  assert (Hall0 : Forall (src_ok reg (c_own c)) (pending st0)).
+  { change (pending (mkS q None last)) with q in P1. rewrite P1 in Hall. apply Forall_suffix in Hall. exact Hall. }
+  destruct (step_spec _ reg _ _ _ Hw Hall0 P2) as [_ [_ [_ [_ [_ [_ [_ He]]]]]]].
+  rewrite P3 in He. cbn [fst snd] in He. exact He.
+Qed.
+
+(* ------------------------------------------------------------------ 7. corollaries in the form used by Props/C03.v *)
+
+Lemma direct_nop i p : is_nop p = true -> direct i p = [].
+Proof. intro H. rewrite direct_direct'. apply direct'_nop. rewrite is_nop_untag, is_nop_norm. exact H. Qed.
+
+Lemma flat_map_direct_plain i l :
+  i <> 0 -> Forall (fun p => queueable p = true /\ (is_nop p = true \/ plain p = true)) l ->
+  flat_map (direct i) l = map (to_own i) (nonnop l).
+Proof.
+  intros Hi H. induction H as [|p l [Hq Hp] _ IH]; [reflexivity|].
+  cbn [flat_map]. unfold nonnop in *. cbn [filter]. destruct (is_nop p) eqn:En; cbn [negb].
+  - rewrite direct_nop by assumption. exact IH.
+  - destruct Hp as [Hp|Hp]; [discriminate|]. rewrite (direct_plain i p Hi Hq Hp En). cbn [map app]. f_equal. exact IH.
+Qed.
+
+Lemma drain_delivers_plain c reg last q :
+  wf_conf c -> Forall (fun p => queueable p = true /\ (is_nop p = true \/ plain p = true)) q ->
+  all_reg reg (c_own c) q ->
+  map untag_d (deliveries (drain c reg (mkS q None last))) =
+  map (to_own (c_own c)) (filter (fun p => negb (is_nop p)) (abandon (c_own c) last q)).
+Proof.
+  intros Hw Hq Hr.
+  assert (Hq' : Forall (fun p => queueable p = true) q).
+  { rewrite Forall_forall in *. intros p Hp. apply (Hq p Hp). }
+  rewrite (drain_delivers_queue c reg last q Hw Hq' Hr).
+  destruct (abandon_suffix (c_own c) last q) as [d Hd].
+  apply flat_map_direct_plain; [apply Hw|]. rewrite Hd in Hq. apply Forall_suffix in Hq. exact Hq.
+Qed.
+
+Lemma drain_terminates c reg lg q :
+  wf_conf c -> Forall (fun p => queueable p = true) q -> all_reg reg (c_own c) q ->
+  (forall extra, drain_fuel c reg (S (length q) + extra) (mkS q None lg) = drain c reg (mkS q None lg)) /\
+  (forall s, In s (drain c reg (mkS q None lg)) ->
+     exists st0 pre, q = pre ++ pending st0 /\ session_next c st0 = (Some (st_tx s), st_after s) /\
+                     (pending st0 <> [] -> (length (pending (st_after s)) < length (pending st0))%nat)) /\
+  (forall s0, drain c reg (mkS q None lg) = [] \/
+              pending (st_after (last (drain c reg (mkS q None lg)) s0)) = []).
+Proof.
+  intros Hw Hq Hr. pose proof (queue_src_ok reg _ _ Hq Hr) as Hall. split; [|split].
+  - intro extra. unfold drain. apply (drain_fuel_stable c reg Hw); cbn [pending s_peek s_q]; try lia. exact Hall.
+  - intros s Hin.
+    destruct (drain_fuel_steps c reg Hw _ (mkS q None lg) _ Hall Hin) as [st0 [pre [P1 [P2 _]]]].
+    exists st0, pre. split; [exact P1|]. split; [exact P2|]. intro Hne.
+    assert (Hall0 : Forall (src_ok reg (c_own c)) (pending st0)).
+    { change (pending (mkS q None lg)) with q in P1. rewrite P1 in Hall. apply Forall_suffix in Hall. exact Hall. }
+    apply (progress c reg st0 _ _ Hw Hall0 P2 Hne).
+  - intro s0. unfold drain.
+    destruct (drain_fuel c reg (S (length (pending (mkS q None lg)))) (mkS q None lg)) as [|y l] eqn:ED;
+      [left; reflexivity|right].
+    pose proof (drain_fuel_ends_empty c reg Hw (S (length (pending (mkS q None lg)))) (mkS q None lg)
+                  (mkStep (TSingle (keepalive 0 [])) (mkS [] None 0) [] 0) ltac:(lia) Hall) as HE.
+    rewrite ED in HE.
+    assert (HL2 : forall a b : step, last (y :: l) a = last (y :: l) b).
+    { clear. revert y. induction l as [|z l IHl]; intros y a b; [reflexivity|].
+      change (last (y :: z :: l) a) with (last (z :: l) a). change (last (y :: z :: l) b) with (last (z :: l) b).
+      apply IHl. }
+    rewrite (HL2 s0 (mkStep (TSingle (keepalive 0 [])) (mkS [] None 0) [] 0)).
+    destruct HE as [HE|HE]; [rewrite HE; reflexivity|exact HE].
+Qed.
+
+Lemma drain_batches_within_budget c reg last q s o :
+  wf_conf c -> Forall (fun p => queueable p = true) q -> all_reg reg (c_own c) q ->
+  In s (drain c reg (mkS q None last)) -> st_tx s = TMulti o -> 1 < len (c_in o) ->
+  sum_size (c_in o) <= c_frag c /\ len (c_in o) <= c_packets c /\ f_len (c_fl o) = len (c_in o).
+Proof.
+  intros Hw Hq Hr Hin Htx Hlen. pose proof (queue_src_ok reg _ _ Hq Hr) as Hall.
+  destruct (drain_fuel_steps c reg Hw _ (mkS q None last) _ Hall Hin) as [st0 [pre [P1 [P2 _]]]].
+  rewrite Htx in P2. change (pending (mkS q None last)) with q in P1.
+  apply (session_next_budget c st0 o (st_after s) Hw); [|exact P2|exact Hlen].
+  rewrite P1 in Hq. apply Forall_suffix in Hq. exact Hq.
+Qed.
+
+Lemma session_next_tags c reg st tx st' :
+  wf_conf c -> Forall (fun p => queueable p = true) (pending st) -> all_reg reg (c_own c) (pending st) ->
+  session_next c st = (Some tx, st') ->
+  forall y, In y (tx_tags tx) <-> In y (first_tags c st) \/ exists v, In v (tx_packets tx) /\ In y (p_tags v).
+Proof.
+  intros Hw Hq Hr H. pose proof (queue_src_ok reg _ _ Hq Hr) as Hall.
+  destruct (session_next_spec _ reg _ _ _ Hw Hall H) as [_ [_ [_ [_ [_ [_ [_ [_ HT]]]]]]]]. exact HT.
+Qed.
+
+Lemma carry_over_q c st tx st' k :
+  wf_conf c -> Forall (fun p => queueable p = true) (pending st) ->
+  session_next c st = (Some tx, st') -> s_peek st' = Some k ->
+  In k (pending st) /\
+  exists tx' st'', session_next c st' = (Some tx', st'') /\
+    exists v, first_packet tx' = Some v /\ untag v = untag (norm (c_own c) k).
+Proof.
+  intros Hw Hq. apply carry_over; [exact Hw|].
+  rewrite Forall_forall in *. intros p Hp. apply queueable_packable. apply Hq. exact Hp.
+Qed.
+
+Lemma progress_q c reg st tx st' :
+  wf_conf c -> Forall (fun p => queueable p = true) (pending st) -> all_reg reg (c_own c) (pending st) ->
+  session_next c st = (Some tx, st') -> pending st <> [] ->
+  (length (pending st') < length (pending st))%nat /\ exists pre, pre <> [] /\ pending st = pre ++ pending st'.
+Proof.
+  intros Hw Hq Hr. apply (progress c reg); [exact Hw|]. apply queue_src_ok; assumption.
 Qed.
